@@ -82,6 +82,9 @@ var _ = tabular.New
 
 func (w *world) execRender2(op M) bool {
 	switch opStr(op, "op") {
+	case "faultsweep":
+		w.lastRes = M{"faults": w.faultSweep(op)}
+		return true
 	case "renderall":
 		w.lastRes = M{"all": w.renderAll(opInt(op, "t"))}
 		return true
